@@ -256,24 +256,31 @@ def validPayload (sc : Schema) : Payload → Bool
   | .created tx _ => tx.postings.all fun p => (sc.find p.source).isSome && (sc.find p.destination).isSome
   | _ => true
 
-/-- `runLog`. -/
-def runLog (strict : Bool) (kind : OpKind) (ik ihash sv : String) (attempt : Nat) : Prog Log :=
-  let continue_ (schema : Option Schema) : Prog Log :=
-    Prog.bind (body strict kind attempt schema) fun payload =>
-    let bad := match schema with
-      | some sc => strict && !validPayload sc payload
-      | none => false
-    if bad then .fail .schemaValidation
-    else .call (.insertLog { payload := payload, ik := ik, ihash := ihash, schemaVersion := sv }) .pure
+/-- First part of `runLog`: which schema the operation runs under. -/
+def schemaPhase (strict : Bool) (kind : OpKind) (sv : String) : Prog (Option Schema) :=
   if sv ≠ "" then
     .call (.findSchema sv) fun r =>
       match r with
-      | some sc => continue_ (some sc)
+      | some sc => .pure (some sc)
       | none => .call .findLatestSchemaVersion fun _ => .fail .schemaNotFound
   else if kind.needsSchema then
     .call .findLatestSchemaVersion fun latest =>
-      if latest.isSome && strict then .fail .schemaNotSpecified else continue_ none
-  else continue_ none
+      if latest.isSome && strict then .fail .schemaNotSpecified else .pure none
+  else .pure none
+
+/-- Last part of `runLog`: schema validation of the payload, then `InsertLog`. -/
+def logPhase (strict : Bool) (ik ihash sv : String) (schema : Option Schema) (payload : Payload) : Prog Log :=
+  let bad := match schema with
+    | some sc => strict && !validPayload sc payload
+    | none => false
+  if bad then .fail .schemaValidation
+  else .call (.insertLog { payload := payload, ik := ik, ihash := ihash, schemaVersion := sv }) .pure
+
+/-- `runLog`: schema lookup, the operation's function, log creation and insertion. -/
+def runLog (strict : Bool) (kind : OpKind) (ik ihash sv : String) (attempt : Nat) : Prog Log :=
+  Prog.bind (schemaPhase strict kind sv) fun schema =>
+  Prog.bind (body strict kind attempt schema) fun payload =>
+  logPhase strict ik ihash sv schema payload
 
 /-- `fetchLogWithIK` (only when an idempotency key is given). -/
 def ikLookup (ik ihash : String) : Prog (Option Log) :=
